@@ -143,7 +143,47 @@ func commitHeap() {
 	undoLog = undoLog[:0]
 }
 
+// cloneAgg copies struct and array values (the interpreter represents them as Go slices, so a shallow copy
+// would alias two addressable locations; upstream interp has this defect in append/copy).
+func cloneAgg(v value) value {
+	switch x := v.(type) {
+	case structure:
+		out := make(structure, len(x))
+		for i := range x {
+			out[i] = cloneAgg(x[i])
+		}
+		return out
+	case array:
+		out := make(array, len(x))
+		for i := range x {
+			out[i] = cloneAgg(x[i])
+		}
+		return out
+	}
+	return v
+}
+
+func cloneAggs(src []value) []value {
+	needs := false
+	for _, v := range src {
+		switch v.(type) {
+		case structure, array:
+			needs = true
+		}
+		break
+	}
+	if !needs {
+		return src
+	}
+	out := make([]value, len(src))
+	for i, v := range src {
+		out[i] = cloneAgg(v)
+	}
+	return out
+}
+
 func appendLogged(dst, src []value) []value {
+	src = cloneAggs(src)
 	if undoActive && len(dst)+len(src) <= cap(dst) {
 		ext := dst[len(dst) : len(dst)+len(src)]
 		for i := range ext {
@@ -154,6 +194,7 @@ func appendLogged(dst, src []value) []value {
 }
 
 func copyLogged(dst, src []value) int {
+	src = cloneAggs(src)
 	n := len(dst)
 	if len(src) < n {
 		n = len(src)
